@@ -623,7 +623,8 @@ func c01SSH1Mpint(mag []byte) []byte {
 	return c01Cat(c01U16(uint16(bits)), mag)
 }
 
-func c01GenSSH1(c *Ctx, r *Rng, add func(kind, name string, data []byte)) {
+// c01SSH1Fields: a genuine protocol 1 key file as fields (cipher 0: private part in the clear, 3: 3DES).
+func c01SSH1Fields(r *Rng, cipher uint64) []c01F {
 	n := r.Bytes(128)
 	n[0] |= 0x80
 	n[127] |= 1
@@ -632,22 +633,26 @@ func c01GenSSH1(c *Ctx, r *Rng, add func(kind, name string, data []byte)) {
 		bits := uint64(e[0])<<8 | uint64(e[1])
 		return []c01F{{name: name + "-bitcount", kind: 'h', v: bits, specialV: []uint64{bits + 8, bits - 8, bits + 1, 7, 8, 9, 1023, 1024, 1025}}, fRaw(name, e[2:])}
 	}
+	check := r.Bytes(2)
+	priv := c01Cat(check, check, c01SSH1Mpint(r.Bytes(128)), c01SSH1Mpint(r.Bytes(64)), c01SSH1Mpint(r.Bytes(64)), c01SSH1Mpint(r.Bytes(64)))
+	for len(priv)%8 != 0 {
+		priv = append(priv, 0)
+	}
+	pf := fRaw("private-part", priv)
+	for _, l := range []int{0, 1, 2, 3, 4, 5, 7, 8, 9, 15, 16, 17, len(priv) - 8, len(priv) - 1, len(priv) + 1, len(priv) + 7, len(priv) + 8} {
+		pf.special = append(pf.special, c01Stretch(priv, l))
+	}
+	pf.special = append(pf.special, c01Cat(check, []byte{check[0] ^ 1, check[1]}, priv[4:]), c01Cat(check, check, []byte{0xff, 0xff}, priv[6:]), c01Cat(check, check, []byte{0, 0}, priv[6:]))
+	fs := []c01F{fRaw("magic", []byte("SSH PRIVATE KEY FILE FORMAT 1.1\n\x00")), {name: "cipher", kind: 'b', v: cipher, specialV: []uint64{0, 1, 2, 3, 4, 5, 6, 7}}, fU32("reserved", 0), fU32("bits", 1024)}
+	fs[0].special = [][]byte{[]byte("SSH PRIVATE KEY FILE FORMAT 1.1\n"), []byte("SSH PRIVATE KEY FILE FORMAT 1.2\n\x00"), []byte("SSH PRIVATE KEY FILE FORMAT 1.1\r\n\x00")}
+	fs = append(fs, mp("n", n)...)
+	fs = append(fs, mp("e", []byte{1, 0, 1})...)
+	return append(fs, fStr("comment", []byte("user@host"), []byte(""), []byte("\xff\xfe"), []byte("a\x00b"), []byte("\x1b[31m"), []byte(strings.Repeat("c", 70000))), pf)
+}
+
+func c01GenSSH1(c *Ctx, r *Rng, add func(kind, name string, data []byte)) {
 	for _, cipher := range []uint64{0, 3} {
-		check := r.Bytes(2)
-		priv := c01Cat(check, check, c01SSH1Mpint(r.Bytes(128)), c01SSH1Mpint(r.Bytes(64)), c01SSH1Mpint(r.Bytes(64)), c01SSH1Mpint(r.Bytes(64)))
-		for len(priv)%8 != 0 {
-			priv = append(priv, 0)
-		}
-		pf := fRaw("private-part", priv)
-		for _, l := range []int{0, 1, 2, 3, 4, 5, 7, 8, 9, 15, 16, 17, len(priv) - 8, len(priv) - 1, len(priv) + 1, len(priv) + 7, len(priv) + 8} {
-			pf.special = append(pf.special, c01Stretch(priv, l))
-		}
-		pf.special = append(pf.special, c01Cat(check, []byte{check[0] ^ 1, check[1]}, priv[4:]), c01Cat(check, check, []byte{0xff, 0xff}, priv[6:]), c01Cat(check, check, []byte{0, 0}, priv[6:]))
-		fs := []c01F{fRaw("magic", []byte("SSH PRIVATE KEY FILE FORMAT 1.1\n\x00")), {name: "cipher", kind: 'b', v: cipher, specialV: []uint64{0, 1, 2, 3, 4, 5, 6, 7}}, fU32("reserved", 0), fU32("bits", 1024)}
-		fs[0].special = [][]byte{[]byte("SSH PRIVATE KEY FILE FORMAT 1.1\n"), []byte("SSH PRIVATE KEY FILE FORMAT 1.2\n\x00"), []byte("SSH PRIVATE KEY FILE FORMAT 1.1\r\n\x00")}
-		fs = append(fs, mp("n", n)...)
-		fs = append(fs, mp("e", []byte{1, 0, 1})...)
-		fs = append(fs, fStr("comment", []byte("user@host"), []byte(""), []byte("\xff\xfe"), []byte("a\x00b"), []byte("\x1b[31m"), []byte(strings.Repeat("c", 70000))), pf)
+		fs := c01SSH1Fields(r, cipher)
 		add("ssh1-genuine:ssh1", "identity", c01Enc(fs))
 		for _, v := range c01FieldVariants("ssh1", fs) {
 			add(v.tag+":ssh1", "identity", v.data)
